@@ -8,9 +8,9 @@
 #ifdef __cplusplus
 /* Legacy style asserts (for C++):*/
 #define assert_true(result) \
-        (*cgreen::get_test_reporter()->assert_true)(cgreen::get_test_reporter(), FILENAME, __LINE__, !!(result), "[" STRINGIFY_TOKEN(result) "] should be true\n", NULL)
+        (*cgreen::get_test_reporter()->assert_true)(cgreen::get_test_reporter(), FILENAME, __LINE__, !!(result), "[%s] should be true\n", STRINGIFY_TOKEN(result))
 #define assert_false(result) \
-        (*cgreen::get_test_reporter()->assert_true)(cgreen::get_test_reporter(), FILENAME, __LINE__, ! (result), "[" STRINGIFY_TOKEN(result) "] should be false\n", NULL)
+        (*cgreen::get_test_reporter()->assert_true)(cgreen::get_test_reporter(), FILENAME, __LINE__, ! (result), "[%s] should be false\n", STRINGIFY_TOKEN(result))
 #define assert_equal(tried, expected) \
         assert_equal_(FILENAME, __LINE__, STRINGIFY_TOKEN(tried), (intptr_t)(tried), (intptr_t)(expected))
 #define assert_not_equal(tried, expected) \
@@ -43,9 +43,9 @@
 #else
 /* Legacy style asserts (for C):*/
 #define assert_true(result) \
-        (*get_test_reporter()->assert_true)(get_test_reporter(), FILENAME, __LINE__, !!(result), "[" STRINGIFY_TOKEN(result) "] should be true\n", NULL)
+        (*get_test_reporter()->assert_true)(get_test_reporter(), FILENAME, __LINE__, !!(result), "[%s] should be true\n", STRINGIFY_TOKEN(result))
 #define assert_false(result) \
-        (*get_test_reporter()->assert_true)(get_test_reporter(), FILENAME, __LINE__, ! (result), "[" STRINGIFY_TOKEN(result) "] should be false\n", NULL)
+        (*get_test_reporter()->assert_true)(get_test_reporter(), FILENAME, __LINE__, ! (result), "[%s] should be false\n", STRINGIFY_TOKEN(result))
 #define assert_equal(tried, expected) \
         assert_equal_(FILENAME, __LINE__, STRINGIFY_TOKEN(tried), (intptr_t)(tried), (intptr_t)(expected))
 #define assert_not_equal(tried, expected) \
